@@ -178,4 +178,325 @@ example (k : Nat) :
     (run (k + 1)).best.value ≤ (run k).best.value :=
   (linesearch_methods_monotone_bfgs_modelled id 0 1 1 _ (fun x => by simp) [3, -1] [] k).2.2
 
+/-! ## conjugate gradients: the Dai–Yuan update and the C++ "restart" branch give non-ascent directions -/
+
+theorem dot_nil_left (b : Vec Rat) : Vec.dot ([] : Vec Rat) b = 0 := by simp [Vec.dot, zero_eq]
+theorem dot_nil_right (a : Vec Rat) : Vec.dot a ([] : Vec Rat) = 0 := by simp [Vec.dot, zero_eq]
+
+theorem dot_comm' : ∀ (a b : Vec Rat), Vec.dot a b = Vec.dot b a := by
+  intro a
+  induction a with
+  | nil => intro b; rw [dot_nil_left, dot_nil_right]
+  | cons x xs ih =>
+    intro b
+    cases b with
+    | nil => rw [dot_nil_left, dot_nil_right]
+    | cons y ys => rw [dot_cons, dot_cons, ih ys]; ring
+
+theorem dot_sub_right : ∀ (d a b : Vec Rat), a.length = d.length → b.length = d.length →
+    Vec.dot d (Vec.sub a b) = Vec.dot d a - Vec.dot d b := by
+  intro d
+  induction d with
+  | nil => intro a b _ _; simp [dot_nil_left]
+  | cons x xs ih =>
+    intro a b ha hb
+    match a, b, ha, hb with
+    | y :: ys, z :: zs, ha, hb =>
+      have := ih ys zs (by simpa using ha) (by simpa using hb)
+      simp only [Vec.sub, List.zipWith_cons_cons] at this ⊢
+      rw [dot_cons, dot_cons, dot_cons, this]; ring
+
+theorem dot_smul_right : ∀ (g d : Vec Rat) (c : Rat), Vec.dot g (Vec.smul c d) = c * Vec.dot g d := by
+  intro g
+  induction g with
+  | nil => intro d c; simp [dot_nil_left]
+  | cons x xs ih =>
+    intro d c
+    cases d with
+    | nil => simp [Vec.smul, dot_nil_right]
+    | cons y ys =>
+      have := ih ys c
+      simp only [Vec.smul, List.map_cons] at this ⊢
+      rw [dot_cons, dot_cons, this]; ring
+
+theorem dot_self_nonneg : ∀ (g : Vec Rat), 0 ≤ Vec.dot g g := by
+  intro g
+  induction g with
+  | nil => simp [dot_nil_left]
+  | cons x xs ih => rw [dot_cons]; nlinarith [mul_self_nonneg x]
+
+theorem dot_self_zero : ∀ (g d : Vec Rat), Vec.dot g g = 0 → Vec.dot g d = 0 := by
+  intro g
+  induction g with
+  | nil => intro d _; exact dot_nil_left d
+  | cons x xs ih =>
+    intro d h
+    rw [dot_cons] at h
+    have hx : x * x = 0 := by nlinarith [mul_self_nonneg x, dot_self_nonneg xs]
+    have hxs : Vec.dot xs xs = 0 := by nlinarith [mul_self_nonneg x, dot_self_nonneg xs]
+    have hx0 : x = 0 := by simpa using hx
+    cases d with
+    | nil => exact dot_nil_right _
+    | cons y ys => rw [dot_cons, ih ys hxs, hx0]; ring
+
+theorem smul_length (c : Rat) (d : Vec Rat) : (Vec.smul c d).length = d.length := by simp [Vec.smul]
+
+/-- **cg_direction_nonascent.**  `CG::computeSearchDirection` (all three branches: periodic reset to `-g`, the
+"restart" `d := d - g` taken when `‖g‖² = 0` or `|dᵀ(g - g_old)| ≤ 1e-10·‖g‖²`, the Dai–Yuan update
+`d := β·d - g` with `β = ‖g‖² / dᵀ(g - g_old)`): if the old direction was a non-ascent direction for the old gradient
+and the curvature along the step is non-negative (`dᵀ(g - g_old) ≥ 0` — every convex objective, every step
+satisfying the Wolfe curvature condition), the new direction is a non-ascent direction for the new gradient.
+In the β branch the identity behind it is `gᵀd_new = ‖g‖²·(g_oldᵀd)/(dᵀ(g - g_old))`. -/
+theorem cg_direction_nonascent (s : LSOpt Rat) (count : Nat) (hm : s.model = .cg count)
+    (hg : s.derivative.length = s.dir.length) (hl : s.lastDerivative.length = s.dir.length)
+    (hold : Vec.dot s.lastDerivative s.dir ≤ 0)
+    (hcurv : 0 ≤ Vec.dot s.dir (Vec.sub s.derivative s.lastDerivative)) :
+    Vec.dot (LSOpt.computeSearchDirection s).derivative (LSOpt.computeSearchDirection s).dir ≤ 0 := by
+  have hdiv : Vec.dot s.dir (Vec.sub s.derivative s.lastDerivative)
+      = Vec.dot s.derivative s.dir - Vec.dot s.lastDerivative s.dir := by
+    rw [dot_sub_right _ _ _ hg hl, dot_comm' s.dir s.derivative, dot_comm' s.dir s.lastDerivative]
+  have hgg := dot_self_nonneg s.derivative
+  unfold LSOpt.computeSearchDirection
+  simp only [hm]
+  split_ifs with h1 h2
+  · exact direction_descent_neg_gradient _
+  · -- restart branch: d - g
+    show Vec.dot s.derivative (Vec.sub s.dir s.derivative) ≤ 0
+    rw [dot_sub_right _ _ _ hg.symm rfl]
+    simp only [Bool.or_eq_true, decide_eq_true_eq] at h2
+    rcases h2 with h2 | h2
+    · have hz : Vec.dot s.derivative s.derivative = 0 := SharkVerif.Opt.LSOpt.Box.beq_zero_true _ h2
+      rw [dot_self_zero _ s.dir hz, hz]; simp
+    · have habs : Vec.dot s.dir (Vec.sub s.derivative s.lastDerivative) ≤ (1/10000000000 : Rat) * Vec.dot s.derivative s.derivative := by
+        have : Vec.dot s.dir (Vec.sub s.derivative s.lastDerivative) ≤ Scalar.abs (Vec.dot s.dir (Vec.sub s.derivative s.lastDerivative)) := by
+          unfold Scalar.abs; split_ifs with hneg
+          · have : Vec.dot s.dir (Vec.sub s.derivative s.lastDerivative) < 0 := hneg
+            linarith
+          · exact le_refl _
+        exact le_trans this h2
+      unfold Vec.normSqr at habs
+      rw [hdiv] at habs
+      nlinarith
+  · -- Dai–Yuan branch
+    show Vec.dot s.derivative (Vec.sub (Vec.smul _ s.dir) s.derivative) ≤ 0
+    rw [dot_sub_right _ _ _ (by rw [smul_length]; exact hg.symm) rfl, dot_smul_right]
+    simp only [Bool.or_eq_true, decide_eq_true_eq, not_or, not_le] at h2
+    set D := Vec.dot s.dir (Vec.sub s.derivative s.lastDerivative) with hD
+    set G := Vec.dot s.derivative s.derivative with hG
+    have hGpos : 0 ≤ G := hgg
+    have hDpos : 0 < D := by
+      rcases lt_or_eq_of_le hcurv with h | h
+      · exact h
+      · exfalso
+        have h3 := h2.2
+        rw [← h] at h3
+        unfold Vec.normSqr at h3
+        have : Scalar.abs (0 : Rat) = 0 := by simp [Scalar.abs, Scalar.zero, Scalar.ofRat]
+        rw [this] at h3
+        have : (0 : Rat) ≤ (Scalar.ofRat (1/10000000000) : Rat) * G := by
+          show (0 : Rat) ≤ (1/10000000000) * G; positivity
+        linarith
+    show G / D * Vec.dot s.derivative s.dir - G ≤ 0
+    have hgd : Vec.dot s.derivative s.dir = D + Vec.dot s.lastDerivative s.dir := by rw [hdiv]; ring
+    rw [hgd]
+    have : G / D * (D + Vec.dot s.lastDerivative s.dir) - G = G * Vec.dot s.lastDerivative s.dir / D := by
+      field_simp; ring
+    rw [this]
+    exact div_nonpos_of_nonpos_of_nonneg (mul_nonpos_of_nonneg_of_nonpos hGpos hold) hDpos.le
+
+/-- **cg_negative_curvature_witness.**  The curvature hypothesis of `cg_direction_nonascent` cannot be dropped: the
+C++ tests `|dᵀ(g - g_old)|`, not its sign.  Dimension 2, old direction `(1,0)` (a descent direction for
+`g_old = (-1,0)`), new gradient `(-2,1)` (the slope along `d` became more negative: possible on a non-convex objective
+after an Armijo-only step): β = -5 and the new direction `(-3,-1)` is an *ascent* direction (`gᵀd = 5`). -/
+theorem cg_negative_curvature_witness :
+    let s : LSOpt Rat := { dim := 2, initialStep := 1, best := ⟨[0, 0], 0⟩, derivative := [-2, 1], dir := [1, 0],
+                           lastDerivative := [-1, 0], lastPoint := [0, 0], lastValue := 0, model := .cg 0 }
+    Vec.dot s.lastDerivative s.dir ≤ 0 ∧ (LSOpt.computeSearchDirection s).dir = [-3, -1] ∧
+      0 < Vec.dot (LSOpt.computeSearchDirection s).derivative (LSOpt.computeSearchDirection s).dir := by
+  norm_num [LSOpt.computeSearchDirection, Vec.dot, Vec.sub, Vec.smul, Vec.normSqr, Scalar.beq, Scalar.abs, Scalar.zero,
+    Scalar.ofRat]
+
+/-! ## CG over whole runs on convex objectives -/
+
+/-- the returned point lies on the ray `p + t'·d`, `t' ≥ 0` (what the C++ line searches that only try non-negative
+step lengths deliver: `backtracking`, and `wolfecubic` whose trial steps stay between bracket ends) -/
+def LSRay (ls : LineSearch Rat) : Prop :=
+  ∀ (o : Objective Rat) (p : Vec Rat) (v : Rat) (d g : Vec Rat) (t : Rat), d.length = p.length → 0 ≤ t →
+    ∃ t', 0 ≤ t' ∧ (ls o p v d g t).point = Vec.axpy p t' d
+
+theorem backtrackGo_nonneg (o : Objective Rat) (point dir : Vec Rat) (value gtd : Rat) :
+    ∀ (k : Nat) (t t' fnew : Rat) (gnew : Vec Rat), 0 ≤ t →
+      backtrackGo o point dir value gtd k t = some (t', fnew, gnew) → 0 ≤ t' :=
+  fun k t t' fnew gnew ht h => backtrackGo_step_nonneg o point dir value gtd k t t' fnew gnew ht h
+
+theorem backtracking_ray : LSRay backtracking := by
+  intro o p v d g t hd ht
+  unfold backtracking
+  simp only
+  split
+  · next t' fnew gnew h => exact ⟨t', backtrackGo_nonneg o p d v _ _ _ _ _ _ ht h, rfl⟩
+  · exact ⟨0, le_refl _, (axpy_zero p d (le_of_eq hd.symm)).symm⟩
+
+/-- the gradient is monotone along rays: `dᵀ(∇f(x + t·d) - ∇f(x)) ≥ 0` for `t ≥ 0` (every differentiable convex
+function; for `f(x) = ½xᵀAx - bᵀx` it says `t·dᵀAd ≥ 0`, i.e. `A` positive semidefinite) -/
+def GradMonotone (o : Objective Rat) : Prop :=
+  ∀ (x d : Vec Rat) (t : Rat), d.length = x.length → 0 ≤ t →
+    0 ≤ Vec.dot d (Vec.sub (o.grad (Vec.axpy x t d)) (o.grad x))
+
+def CGInv (o : Objective Rat) (n : Nat) (s : LSOpt Rat) : Prop :=
+  (∃ c, s.model = .cg c) ∧ s.best.point.length = n ∧ s.derivative.length = n ∧ s.dir.length = n ∧
+    Vec.dot s.derivative s.dir ≤ 0 ∧ 0 ≤ s.initialStep ∧ s.best.value = o.f s.best.point ∧ s.derivative = o.grad s.best.point
+
+theorem init_step_nonneg (o : Objective Rat) (kind : LSModel Rat) (x0 : Vec Rat) : 0 ≤ (LSOpt.init o kind x0).initialStep := by
+  simp only [LSOpt.init]
+  apply shrink_nonneg
+  have hn : (0 : Rat) ≤ Vec.norm1 (o.grad x0) := by
+    unfold Vec.norm1; exact foldl_abs_nonneg _ _ (by simp [Scalar.zero, Scalar.ofRat])
+  unfold Scalar.min
+  split
+  · simp only [Scalar.one, Scalar.ofRat]; positivity
+  · simp [Scalar.one, Scalar.ofRat]
+
+theorem cg_csd_shape (s : LSOpt Rat) (c : Nat) (n : Nat) (hm : s.model = .cg c) (hg : s.derivative.length = n)
+    (hd : s.dir.length = n) :
+    (∃ c', (LSOpt.computeSearchDirection s).model = .cg c') ∧ (LSOpt.computeSearchDirection s).dir.length = n := by
+  unfold LSOpt.computeSearchDirection
+  simp only [hm]
+  split_ifs <;> exact ⟨⟨_, rfl⟩, by simp [Vec.neg, Vec.sub, Vec.smul, hg, hd]⟩
+
+theorem cg_step_inv (ls : LineSearch Rat) (hc : LSContract ls) (hr : LSRay ls) (o : Objective Rat) (ho : GradDim o)
+    (hconv : GradMonotone o) (n : Nat) (s : LSOpt Rat) (h : CGInv o n s) :
+    CGInv o n (LSOpt.step ls o s) ∧ (LSOpt.step ls o s).best.value ≤ s.best.value := by
+  obtain ⟨⟨c, hm⟩, hp, hg, hdir, hdesc, hisl, hv, hgr⟩ := h
+  have hdl : s.dir.length = s.best.point.length := by rw [hdir, hp]
+  have ct := hc o s.best.point s.best.value s.dir s.derivative s.initialStep hdl hv hgr
+  obtain ⟨t', ht', hray⟩ := hr o s.best.point s.best.value s.dir s.derivative s.initialStep hdl hisl
+  set a := LSOpt.afterLineSearch ls o s with ha
+  have hma : a.model = .cg c := hm
+  have hap : a.best.point.length = n := by show (ls o _ _ _ _ _).point.length = n; rw [ct.2.2.1, hp]
+  have hag : a.derivative.length = n := by
+    show (ls o _ _ _ _ _).gradient.length = n
+    rw [ct.2.1, ho, ct.2.2.1, hp]
+  have had : a.dir.length = n := hdir
+  have hal : a.lastDerivative.length = n := hg
+  have hcurv : 0 ≤ Vec.dot a.dir (Vec.sub a.derivative a.lastDerivative) := by
+    show 0 ≤ Vec.dot s.dir (Vec.sub (ls o _ _ _ _ _).gradient s.derivative)
+    rw [ct.2.1, hray, hgr]
+    exact hconv _ _ _ hdl ht'
+  have hna := cg_direction_nonascent a c hma (by rw [hag, had]) (by rw [hal, had]) hdesc hcurv
+  have hsh := cg_csd_shape a c n hma hag had
+  refine ⟨⟨hsh.1, ?_, ?_, hsh.2, hna, ?_, ?_, ?_⟩, ?_⟩
+  · show (LSOpt.computeSearchDirection a).best.point.length = n
+    rw [computeSearchDirection_best]; exact hap
+  · show (LSOpt.computeSearchDirection a).derivative.length = n
+    rw [computeSearchDirection_derivative]; exact hag
+  · have : (LSOpt.computeSearchDirection a).initialStep = 1 := by
+      unfold LSOpt.computeSearchDirection
+      simp only [hma]
+      split_ifs <;> rfl
+    show 0 ≤ (LSOpt.computeSearchDirection a).initialStep
+    rw [this]; norm_num
+  · show (LSOpt.computeSearchDirection a).best.value = o.f (LSOpt.computeSearchDirection a).best.point
+    rw [computeSearchDirection_best]; exact ct.1
+  · show (LSOpt.computeSearchDirection a).derivative = o.grad (LSOpt.computeSearchDirection a).best.point
+    rw [computeSearchDirection_derivative, computeSearchDirection_best]; exact ct.2.1
+  · show (LSOpt.computeSearchDirection a).best.value ≤ s.best.value
+    rw [computeSearchDirection_best]; exact ct.2.2.2 hdesc hisl
+
+/-- **linesearch_methods_monotone_cg_convex.**  CG (Dai–Yuan β, periodic reset, the C++ restart branch) with a line
+search that satisfies the contract and only moves forward along the direction — the modelled `backtracking`
+(`backtracking_contract`, `backtracking_ray`) — on every objective with a monotone gradient (every convex objective,
+in particular every strictly convex quadratic), from every starting point: after every step the reported value is
+the objective at the reported point, the stored gradient is the gradient there, every direction is a non-ascent
+direction and the reported values never increase. -/
+theorem linesearch_methods_monotone_cg_convex (ls : LineSearch Rat) (hc : LSContract ls) (hr : LSRay ls)
+    (o : Objective Rat) (ho : GradDim o) (hconv : GradMonotone o) (x0 : Vec Rat) (c0 : Nat) (k : Nat) :
+    let run := iterN (LSOpt.step ls o) (LSOpt.init o (.cg c0) x0)
+    (run k).best.value = o.f (run k).best.point ∧ Vec.dot (run k).derivative (run k).dir ≤ 0 ∧
+      (run (k + 1)).best.value ≤ (run k).best.value := by
+  intro run
+  have inv : ∀ k, CGInv o x0.length (run k) := by
+    intro k
+    induction k with
+    | zero =>
+      exact ⟨⟨0, rfl⟩, rfl, ho x0, (by show (Vec.neg (o.grad x0)).length = x0.length; simp [Vec.neg, ho x0]), direction_descent_neg_gradient _,
+        init_step_nonneg o _ x0, rfl, rfl⟩
+    | succ k ih => exact (cg_step_inv ls hc hr o ho hconv _ _ ih).1
+  exact ⟨(inv k).2.2.2.2.2.2.1, (inv k).2.2.2.2.1, (cg_step_inv ls hc hr o ho hconv _ _ (inv k)).2⟩
+
+/-- non-vacuity: `f(x) = Σ xᵢ²` has `GradDim` and a monotone gradient (`dᵀ(2(x+td) - 2x) = 2t·dᵀd ≥ 0`) -/
+example (k : Nat) :
+    let o : Objective Rat := ⟨fun x => (x.map fun a => a * a).sum, fun x => x.map (2 * ·), fun _ => true, false, [], []⟩
+    let run := iterN (LSOpt.step backtracking o) (LSOpt.init o (.cg 0) [3, -1])
+    (run (k + 1)).best.value ≤ (run k).best.value := by
+  intro o run
+  refine (linesearch_methods_monotone_cg_convex backtracking backtracking_contract backtracking_ray o (fun x => by simp [o]) ?_ [3, -1] 0 k).2.2
+  intro x d t hd ht
+  have key : ∀ (d x : Vec Rat), d.length = x.length →
+      Vec.dot d (Vec.sub ((Vec.axpy x t d).map (2 * ·)) (x.map (2 * ·))) = 2 * t * Vec.dot d d := by
+    intro d
+    induction d with
+    | nil => intro x _; simp [dot_nil_left]
+    | cons y ys ih =>
+      intro x hx
+      match x, hx with
+      | z :: zs, hx =>
+        have := ih zs (by simpa using hx)
+        simp only [Vec.axpy, Vec.sub, List.zipWith_cons_cons, List.map_cons] at this ⊢
+        rw [dot_cons, dot_cons, this]; ring
+  show 0 ≤ Vec.dot d (Vec.sub ((Vec.axpy x t d).map (2 * ·)) (x.map (2 * ·)))
+  rw [key d x hd]
+  have := dot_self_nonneg d
+  positivity
+
+/-! ## histories: re-initialisation of a used object, save/restore at any point -/
+
+section history
+variable {α : Type} [Scalar α]
+
+/-- what a caller can do with an optimizer object: initialise it (again), step it, archive it and read the archive
+into another (fresh or used) object -/
+inductive HOp (e : Env α) where
+  | init (s : Opt α) (h : Opt.IsInit e s)
+  | step
+  | restore (fresh : Opt α)
+
+def HOp.apply (e : Env α) (cur : Opt α) : HOp e → Opt α
+  | .init s _ => s
+  | .step => cur.step e
+  | .restore fresh => Opt.restore fresh cur
+
+theorem restore_best (fresh s : Opt α) : (Opt.restore fresh s).best = s.best := by
+  cases fresh <;> cases s <;> rfl
+
+/-- **best_value_is_f_best_point_history.**  For SteepestDescent (with momentum), Adam, every Rprop variant and the
+line-search optimizers (line search with `LSSound`: `backtracking_sound`, `dlinmin_LSSound` hold for every scalar type
+including `Float`), the reported value is the objective at the reported point ("best" is the current iterate; for
+SteepestDescent and Adam it is the last iterate, not the best one seen) after *every* history of operations:
+first `init`, then any sequence of `step`, `init` again on the used object (any parameters, any new starting
+point), archive-and-restore into any other object. -/
+theorem best_value_is_f_best_point_history (e : Env α) (hls : LSSound e.ls) (s0 : Opt α) (h0 : Opt.IsInit e s0)
+    (ops : List (HOp e)) : Consistent e.o (ops.foldl (HOp.apply e) s0).best := by
+  have h : Consistent e.o s0.best := by cases h0 <;> rfl
+  clear h0
+  induction ops generalizing s0 with
+  | nil => exact h
+  | cons op ops ih =>
+    apply ih
+    cases op with
+    | init s hs => cases hs <;> rfl
+    | step => exact step_consistent e hls _ h
+    | restore fresh => show Consistent e.o (Opt.restore fresh s0).best; rw [restore_best]; exact h
+
+/-- `dlinmin` meets `LSSound` for every scalar type -/
+theorem dlinmin_LSSound (ax bx : α) : LSSound (dlinmin ax bx) :=
+  fun o p v d g t _ => (dlinmin_sound ax bx o p v d g t).1
+
+/-- non-vacuity: Adam, re-initialised after two steps, then stepped and restored into a used SteepestDescent object -/
+example (e : Env α) (hls : LSSound e.ls) (eta b1 b2 eps : α) (x0 x1 : Vec α) (other : Opt α) :
+    Consistent e.o ([HOp.step, HOp.step, HOp.init _ (Opt.IsInit.adam (e := e) eta b1 b2 eps x1), HOp.step, HOp.restore other].foldl
+      (HOp.apply e) (.adam (Adam.init e.o eta b1 b2 eps x0))).best :=
+  best_value_is_f_best_point_history e hls _ (.adam eta b1 b2 eps x0) _
+end history
+
 end SharkVerif.C10
